@@ -28,6 +28,7 @@ _FRAME_FUNCS = ['field:Int._unpack_fixed_and_primitive_size', 'field:Int._unpack
                 'descriptor:Auto.__get__', 'descriptor:Auto.sync_before_pack']
 
 PROPERTIES = {
+    'C03': dict(level='translation_validation', functions=[], special_driver='pyvc/check_c03.py'),
     'C09': dict(
         level='proof',
         functions=['deferred:_defer_method.<lambda#0>', 'deferred:_defer_method.<lambda#1>', 'deferred:_defer_method.<lambda#2>',
@@ -123,6 +124,7 @@ PROPERTIES = {
     'C06': dict(
         level='proof',
         functions=_DATA_FUNCS,
+        lemmas=['bytes.slice_of_slice'],
         trusted_base=_COMMON_TRUST,
         assumptions=['offset >= 0', 'a bytes marker is non-empty', 'size callbacks are pure (role contract)',
                      're.search returns the leftmost match (opaque pattern semantics)'],
@@ -154,6 +156,15 @@ PROPERTIES = {
 }
 
 MANIFEST_TEXT = {
+    'C03': dict(
+        text='Translation validation, unbounded over inputs and packet values, enumerated over declarations: for every declaration of the family and option set the real builder is run, '
+             'and the generated pack_impl/unpack_impl (real, loop-free code) is proved equivalent to the real generic field loop unrolled over the same concrete field table: every pair of paths '
+             'that can be taken on the same input agrees (same offset and packet heap / same cursor and byte view; both PacketError with the same phase; never one failing and the other not). '
+             'Entries that are not fixed struct fields are deterministic uninterpreted state transformers, so the proof does not depend on their kind.',
+        note='Declarations are enumerated (quick: all of length 1, seeded samples of length 2 and 3, default + one seeded option set; thorough: all length <= 2, larger samples, all 16 option sets). '
+             'Assumes struct multi-code format semantics, Fragments == its C11 contract, well-typed fixed Data values, no stored byte at/after the cursor. The generator itself is not verified, its outputs are. '
+             'On failure only class and phase of the PacketError are compared (the vectorised code may name the run of fixed fields).',
+        technique='translation validation by relational symbolic execution of the real generated code against the real generic loop (VCs from python ast, z3/cvc5)'),
     'C09': dict(
         text='Proof (unbounded) of the local contracts: the methods installed on fields and expressions build nodes with the operands in the order of the python data model '
              '(forward op(self, other), reflected op(other, self)); if_true_then_else selects exactly as the eager conditional expression for every condition value and both branches '
